@@ -209,7 +209,7 @@ impl Property for C11 {
     fn budget(&self, tier: Tier) -> Budget {
         match tier {
             Tier::Quick => Budget { release: 240_000, dbg: 80_000, workers: 8 },
-            Tier::Thorough => Budget { release: 6_000_000, dbg: 1_500_000, workers: 16 },
+            Tier::Thorough => Budget { release: 3_000_000, dbg: 750_000, workers: 16 },
         }
     }
     fn probes(&self) -> Vec<Probe> {
